@@ -211,7 +211,12 @@ int vf_run (void) {
 			if (n_timed != 0 && (cfg.script == NULL || script_pos >= cfg.script_len)) { tick_to (min_deadline); continue; }
 			return (cfg.script != NULL && script_pos < cfg.script_len ? VF_SCRIPT_DIVERGED : VF_STUCK);
 		}
-		if (++steps > cfg.step_limit) { return (VF_STEPLIMIT); }
+		if (++steps > cfg.step_limit) {
+			/* PCT and the adversarial strategy are unfair by design: before calling it a livelock give the
+			   execution the same budget again under the fair (uniform random) scheduler */
+			if (cfg.strategy >= 3 && cfg.script == NULL) { cfg.strategy = 0; cfg.step_limit *= 2; vf_log_env ("fair-continuation"); }
+			else { return (VF_STEPLIMIT); }
+		}
 		if (cfg.script != NULL && script_pos < cfg.script_len) {
 			pick = cfg.script[script_pos++];
 			if (pick >= nfibers || !runnable (&fibers[pick])) { return (VF_SCRIPT_DIVERGED); }
